@@ -144,6 +144,32 @@ class G:
                     core_ = [[A("if"), [[c(True), core_]], []]]
             pre = [[A("set"), v, cs(self.pick(["o", "k"]))]] if r.random() < 0.6 else []
             return [A("if"), [[c(True), pre + core_ + [[A("out"), n(v)]]]], []]
+        if not leaf and r.random() < 0.05:
+            # a name bound by the construct itself (loop target, macro parameter, with variable) is re-assigned inside an
+            # `if` nested in a branch (body / elif / else, at random) of another `if`, and read afterwards in the same scope
+            v = self.var()
+
+            def nest(levels):
+                inner = [[A("set"), v, self.val()]]
+                if levels == 0:
+                    return inner
+                sub = [[A("if"), [[[A("cmp"), n(v), ["eq", c(r.randrange(0, 4))]], nest(levels - 1)]], []]]
+                other = [[A("out"), self.val()]] if r.random() < 0.5 else [[A("text"), "A"]]
+                where = self.pick(["body", "elif", "else", "else"])
+                cnd = [A("cmp"), n(v), ["eq", c(r.randrange(0, 3))]]
+                if where == "body":
+                    return [[A("if"), [[cnd, sub]], other if r.random() < 0.5 else []]]
+                if where == "elif":
+                    return [[A("if"), [[cnd, other], [self.cond(), sub]], []]]
+                return [[A("if"), [[cnd, other]], sub]]
+            body = nest(r.randrange(1, 3)) + [[A("out"), n(v)], [A("text"), ";"]]
+            kind = self.pick(["for", "for", "macro", "with"])
+            if kind == "for":
+                return [A("for"), v, [A("list"), c(1), c(2), c(3)], A("_"), body, []]
+            if kind == "with":
+                return [A("with"), [[v, c(r.randrange(0, 4))]], body]
+            wrap = [[A("macro"), "m0", [[v]], body]] + [[A("callmacro"), "m0", [c(i)]] for i in (1, 2, 3)] + [[A("out"), n(v)]]
+            return [A("if"), [[c(True), wrap]], []]
         if k < 0.22 or leaf and k < 0.5:
             return [A("out"), self.val()]
         if k < 0.27:
